@@ -33,7 +33,7 @@ var c11 = core.Register(&core.Prop{
 	Shards: func(tier string) int { return pickTier(tier, 8, 16) },
 	Floors: func(c map[string]int64, tier string) []string {
 		var out []string
-		for _, k := range []string{"calls_expected", "rejects_expected", "variadic_sigs", "spread_calls", "spread_rejects", "context_sigs", "returned_errors", "returned_numbers", "order_checked", "builtin_calls", "reject:count", "reject:conversion", "shared_tree_pairs"} {
+		for _, k := range []string{"calls_expected", "rejects_expected", "variadic_sigs", "spread_calls", "spread_rejects", "context_sigs", "returned_errors", "returned_numbers", "order_checked", "builtin_calls", "reject:count", "reject:conversion", "shared_tree_pairs", "size_cases"} {
 			if c[k] == 0 {
 				out = append(out, "coverage floor: no "+k)
 			}
@@ -862,6 +862,46 @@ func runC11(w *core.W) {
 			c.Args = append(c.Args, fitting(r, a.Params[minInt(j, len(a.Params)-1)]))
 		}
 		c11Shared(w, c)
+	}
+	// 2c. sizes: argument lists and spread arrays around powers of two and beyond
+	sizes := []int{0, 1, 2, 3, 7, 8, 9, 15, 16, 17, 31, 32, 33, 63, 64, 65, 127, 128, 129, 255, 256, 257, 1000}
+	zi := 0
+	for _, n := range sizes {
+		for _, ek := range []string{"any", "int", "string", "float64", "dec"} {
+			for _, fixed := range []int{0, 1, 2} {
+				zi++
+				if !w.Mine(zi) {
+					continue
+				}
+				sig := SigSpec{Params: []string{}, Variadic: true, Ret: "int", Ctx: zi%2 == 0}
+				for k := 0; k < fixed; k++ {
+					sig.Params = append(sig.Params, []string{"string", "any"}[k%2])
+				}
+				sig.Params = append(sig.Params, ek)
+				plain := &BridgeCase{Sig: sig, Args: []ArgSpec{}}
+				spread := &BridgeCase{Sig: sig, Args: []ArgSpec{}, Spread: true}
+				for k := 0; k < fixed; k++ {
+					plain.Args = append(plain.Args, ArgSpec{K: "str", S: "f"})
+					spread.Args = append(spread.Args, ArgSpec{K: "str", S: "f"})
+				}
+				arr := ArgSpec{K: "arr", Elems: []ArgSpec{}}
+				for k := 0; k < n; k++ {
+					a := ArgSpec{K: "num", Num: fmt.Sprint(k)}
+					if ek == "string" {
+						a = ArgSpec{K: "str", S: fmt.Sprint("s", k)}
+					}
+					plain.Args = append(plain.Args, a)
+					arr.Elems = append(arr.Elems, a)
+				}
+				spread.Args = append(spread.Args, arr)
+				w.Count("size_cases")
+				run(plain)
+				run(spread)
+				// and as one array argument to a slice parameter
+				sk := map[string]string{"any": "anys", "int": "ints", "string": "strs", "float64": "f64s", "dec": "anys"}[ek]
+				run(&BridgeCase{Sig: SigSpec{Params: []string{sk}, Ret: "int"}, Args: []ArgSpec{arr}})
+			}
+		}
 	}
 	// 3. builtins
 	bi := 0
